@@ -708,6 +708,45 @@ def f_pure_imports():
     return runs, pairs, list(chain([1], (2, 3))), itemgetter(1)(('a', 'b'))
 
 
+class _Celsius:
+    def __init__(self, readings):
+        self.readings = readings
+
+    @property
+    def latest(self):
+        return self.readings[-1] if self.readings else None
+
+
+def _extend_in_place(target, more):
+    target += more
+    return len(target)
+
+
+def f_augmented_assignment_and_properties():
+    shared = [1, 2]
+    alias = shared
+    n = _extend_in_place(shared, [3])            # the caller's list grows: += on a list is in place
+    alias += (4,)
+    t = (1, 2)
+    u = t
+    t += (3,)                                    # a tuple is rebound, the other name keeps the old value
+    s = {1}
+    s2 = s
+    s |= {2}
+    s -= {1}
+    d = {'a': 1}
+    d2 = d
+    d |= {'b': 2}
+    text = 'ab'
+    text += 'c'
+    k = [0] * 2
+    k2 = k
+    k *= 2
+    c = _Celsius([3, 4])
+    c.readings += [5]
+    return shared, alias is shared, n, t, u, sorted(s2), s is s2, d2, text, k2, c.latest, _Celsius([]).latest
+
+
 class Reporter:
     def __init__(self):
         self.log = []
